@@ -56,13 +56,42 @@ def bits(m):
 
 
 NLAY = 6
+INT_TYPES = [None, np.int64, np.int32, np.int16, np.uint16, np.uint8, np.int8, np.uint32, np.uint64]
+NITY = len(INT_TYPES)
+
+
+def _li(lay):
+    """A "form" of an argument is (memory layout, numeric type); a bare int is a layout with the float type."""
+    return (lay, 0) if isinstance(lay, int) else (int(lay[0]), int(lay[1]))
+
+
+def int_type(lo, hi, ity):
+    """The integer type number ity if the values lo..hi fit it, else the signed type that holds them."""
+    dt = INT_TYPES[ity]
+    info = np.iinfo(dt)
+    if info.min <= lo and hi <= info.max:
+        return dt
+    for dt in (np.int8, np.int16, np.int32, np.int64):
+        if np.iinfo(dt).min <= lo and hi <= np.iinfo(dt).max:
+            return dt
+    raise core.MachineryError('no integer type for %r..%r' % (lo, hi))
+
+
+def as_int(a, ity):
+    """The same VALUES with an integer dtype, when every value is integral (ity = 0: leave the floats)."""
+    a = np.asarray(a)
+    if ity == 0 or a.dtype.kind != 'f' or not bool(np.all(a == np.round(a))):
+        return a
+    lo, hi = (int(a.min()), int(a.max())) if a.size else (0, 0)
+    return a.astype(int_type(lo, hi, ity))
 
 
 def lay_arr(a, lay):
-    """The same VALUES in another memory layout (Mangle.tla, remark "values only"):
-    0 plain, 1 read-only, 2 every second element of a longer array, 3 Fortran-ordered / column view,
-    4 byte-swapped (as FITS data is), 5 read-only and byte-swapped."""
-    a = np.asarray(a)
+    """The same VALUES in another form (Mangle.tla, remark "values only").  Memory layouts: 0 plain,
+    1 read-only, 2 every second element of a longer array, 3 Fortran-ordered / column view, 4 byte-swapped
+    (as FITS data is), 5 read-only and byte-swapped.  Numeric types: INT_TYPES, applied when all values are integral."""
+    lay, ity = _li(lay)
+    a = as_int(a, ity)
     if lay == 0 or a.ndim == 0:
         return a
     if lay == 1:
@@ -86,29 +115,44 @@ def lay_arr(a, lay):
 
 
 def lay_scalar(v, lay):
-    """A scalar argument: numpy scalar, Python float, 0-d array, byte-swapped 0-d array, read-only 0-d array."""
+    """A scalar argument: numpy scalar, Python float, 0-d array, byte-swapped 0-d array, read-only 0-d array; when the
+    value is integral and an integer type is asked for: Python int, numpy integer scalar or 0-d integer array."""
+    lay, ity = _li(lay)
+    dt = np.dtype(np.float64)
+    if ity and float(v) == round(float(v)):
+        if lay in (1, 2):
+            return int(v)
+        dt = np.dtype(int_type(int(v), int(v), ity))
+        if lay == 0:
+            return dt.type(int(v))
     if lay == 0:
         return np.float64(v)
     if lay in (1, 2):
         return float(v)
     if lay == 3:
-        return np.array(v, dtype=np.float64)
-    b = np.array(v, dtype=np.dtype(np.float64).newbyteorder())
+        return np.array(v, dtype=dt)
+    b = np.array(v, dtype=dt.newbyteorder())
     if lay == 5:
         b.setflags(write=False)
     return b
 
 
+def lay_int(v, lay):
+    """An integer argument (use_caps, ncaps): Python int or a numpy integer scalar of the asked width."""
+    lay, ity = _li(lay)
+    return int(v) if ity == 0 else int_type(int(v), int(v), ity)(int(v))
+
+
 def lay_index(idx, lay):
-    """An index list (array-like): list, read-only int64, strided int64, int32, big-endian int64, tuple."""
+    """An index list (array-like): list, tuple, or an integer array of any width in any layout."""
+    lay, ity = _li(lay)
     il = [int(v) for v in idx]
-    if lay == 0:
+    if ity == 0 and lay == 0:
         return il
-    if lay == 5:
+    if ity == 0 and lay == 5:
         return tuple(il)
-    if lay == 3:
-        return np.array(il, dtype=np.int32)
-    return lay_arr(np.array(il, dtype=np.int64), lay)
+    dt = int_type(min(il + [0]), max(il + [0]), ity) if ity else (np.int32 if lay == 3 else np.int64)
+    return lay_arr(np.array(il, dtype=dt), lay)
 
 
 def make_polygon(poly, lay=0):
@@ -118,7 +162,7 @@ def make_polygon(poly, lay=0):
         return ManglePolygon()
     x = np.array([vec(c['x']) for c in caps], dtype=np.float64).reshape((len(caps), 3))
     cm = np.array([fl(c['cm']) for c in caps], dtype=np.float64).reshape((len(caps),))
-    return ManglePolygon(x=lay_arr(x, lay), cm=lay_arr(cm, lay), use_caps=mask_int(poly['use']))
+    return ManglePolygon(x=lay_arr(x, lay), cm=lay_arr(cm, lay), use_caps=lay_int(mask_int(poly['use']), lay))
 
 
 def fits_rows(polys):
@@ -288,7 +332,7 @@ def obs_window(fn, npts):
 def obs_usecaps(poly, idx, add, allow_doubles, allow_neg, lay):
     from pydl.pydlutils.mangle import set_use_caps
     P = make_polygon(poly, lay)
-    P.use_caps = mask_int(poly['use'])
+    P.use_caps = lay_int(mask_int(poly['use']), lay)
     il = lay_index(idx, lay)
     try:
         r = set_use_caps(P, il, add=add, allow_doubles=allow_doubles, allow_neg_doubles=allow_neg)
@@ -333,7 +377,7 @@ def run_cap(c, pts, coords, lay=0):
 def run_poly(c, pts, coords, lay=0):
     from pydl.pydlutils.mangle import is_in_polygon
     P = make_polygon(c['poly'], lay)
-    n = int(c['n'])
+    n = lay_int(c['n'], lay)
     p = points(pts, coords, lay)
     if n == 0 and coords == 'xyz':
         return obs_bool(lambda: is_in_polygon(P, p), len(pts))     # default argument
@@ -355,9 +399,29 @@ def run_window(ctx, c, pts, coords, form, loaded=None, lay=0, how=None):
     polys = loaded[form]
     if isinstance(polys, Exception):
         return {'exc': 'reader: ' + exc_name(polys), 'idx': [], 'inw': []}
-    n = int(c['n'])
+    n = lay_int(c['n'], lay)
     p = points(pts, coords, lay)
     return obs_window(lambda: is_in_window(polys, p, ncaps=n), len(pts))
+
+
+def integral_points(pts):
+    """1-based numbers of the pool points all of whose coordinates are integers (the six axis points): they, and
+    their RA/Dec in degrees, can be handed over as integer arrays."""
+    return [i + 1 for i, p in enumerate(pts) if all(q[1] == 1 for q in p)]
+
+
+def restrict(exp, sub):
+    """TLC's expectation for the sub-array of points numbered `sub` (renumbered 1..len(sub))."""
+    pos = {i: j + 1 for j, i in enumerate(sub)}
+    out = {}
+    for key, v in exp.items():
+        if key in ('in', 'out', 'dev2out'):
+            out[key] = frozenset(pos[i] for i in v if i in pos)
+        elif key in ('allowed', 'dev2'):
+            out[key] = tuple(v[i - 1] for i in sub)
+        else:
+            out[key] = v
+    return out
 
 
 def judge_bool(exp, obs):
@@ -433,26 +497,41 @@ class Reporter:
 
 # ---------------------------------------------------------------- spec -> code
 def replay_state(ctx, rep, c, exp, pts, k):
+    """All real calls of one TLC state.  Every call uses one form = (memory layout, numeric type) for its array /
+    scalar arguments, rotated over the cases by seed; integer types apply to whatever is integral in the case
+    (axis centres, cm in {0, +-1, +-2}, masks, ncaps, index lists).  One extra call per membership state hands over
+    only the integral pool points (the axis points; as Cartesian integers or as integer RA/Dec degrees)."""
     fam = c['fam']
     ncalls = 0
-    rot = k + ctx.seed           # layouts / spellings are rotated over the cases by seed
+    rot = k + ctx.seed
+    isub = integral_points(pts)
+
+    def form(j):
+        return [(rot + j) % NLAY, (rot // NLAY + j) % NITY]
+
+    def intform(j):
+        return [(rot + j) % NLAY, 1 + (rot // NLAY + j) % (NITY - 1)]
+
     if fam in ('cap', 'poly'):
-        for coords in ('xyz', 'radec'):
-            lay = (rot + ncalls) % NLAY
-            obs = run_cap(c, pts, coords, lay) if fam == 'cap' else run_poly(c, pts, coords, lay)
+        name = 'cap' if fam == 'cap' else 'polygon'
+        plan = [('xyz', None, form(0)), ('radec', None, form(1)), ('xyz' if k % 2 else 'radec', isub, intform(2))]
+        for coords, sub, lay in plan:
+            spts = pts if sub is None else [pts[i - 1] for i in sub]
+            sexp = exp if sub is None else restrict(exp, sub)
+            obs = run_cap(c, spts, coords, lay) if fam == 'cap' else run_poly(c, spts, coords, lay)
             ncalls += 1
-            bad = judge_bool(exp, obs)
+            bad = judge_bool(sexp, obs)
             if bad is None or bad:
-                finding = classify_membership(exp, obs, bad)
-                what = ('is_in_%s %s coords=%s: %s' % (
-                    'cap' if fam == 'cap' else 'polygon', brief(c), coords,
-                    obs['exc'] if bad is None else 'wrong at points %s (pool numbers); e.g. point %s expected %s observed %s' % (
-                        bad[:6], pts[bad[0] - 1], bad[0] in exp['in'], obs['val'][bad[0] - 1])))
-                rep.fail('%s/%s/%s' % (fam, coords, finding or 'unexplained'),
-                         {'what': what + ' [layout %d]' % lay, 'fam': fam, 'c': jsonable(c), 'coords': coords,
-                          'form': '', 'lay': lay, 'pts': jsonable(pts), 'expected': jsonable(exp), 'observed': obs},
-                         finding)
-        ctx.evaluated(ncalls, 'is_in_' + ('cap' if fam == 'cap' else 'polygon'))
+                finding = classify_membership(sexp, obs, bad)
+                what = ('is_in_%s %s coords=%s%s: %s [layout %d, numeric type %s]' % (
+                    name, brief(c), coords, '' if sub is None else ' (integral points only)',
+                    obs['exc'] if bad is None else 'wrong at points %s; e.g. point %s expected %s observed %s' % (
+                        bad[:6], spts[bad[0] - 1], bad[0] in sexp['in'], obs['val'][bad[0] - 1]),
+                    lay[0], getattr(INT_TYPES[lay[1]], '__name__', 'float64')))
+                rep.fail('%s/%s%s/%s' % (fam, coords, '' if sub is None else '-int', finding or 'unexplained'),
+                         {'what': what, 'fam': fam, 'c': jsonable(c), 'coords': coords, 'form': '', 'lay': lay,
+                          'pts': jsonable(spts), 'expected': jsonable(sexp), 'observed': obs}, finding)
+        ctx.evaluated(ncalls, 'is_in_' + name)
         if exp['in'] and exp['out']:
             ctx.nontriv((fam, brief(c)))
     elif fam == 'window':
@@ -463,40 +542,45 @@ def replay_state(ctx, rep, c, exp, pts, k):
         if key not in _FORM_CACHE:
             if len(_FORM_CACHE) >= 8:
                 _FORM_CACHE.pop(next(iter(_FORM_CACHE)))
-            _FORM_CACHE[key] = {'how': {'style': rot % NSTYLE, 'lay': rot % NLAY}}
+            _FORM_CACHE[key] = {'how': {'style': rot % NSTYLE, 'lay': form(3)}}
         loaded = _FORM_CACHE[key]
-        how = loaded['how']          # spelling of the .ply file / layout of the in-memory polygons of this list
-        for form in forms:
-            for coords in (('xyz', 'radec') if form in ('memory', 'fits_raw') or k % 2 else ('xyz',)):
-                lay = (rot + ncalls) % NLAY
-                obs = run_window(ctx, c, pts, coords, form, loaded, lay, how)
-                ncalls += 1
-                bad = judge_window(exp, obs)
-                if bad is None or bad:
-                    finding = classify_membership(exp, obs, bad, form, maxcaps)
-                    what = ('is_in_window %s form=%s coords=%s: %s' % (
-                        brief(c), form, coords,
-                        obs['exc'] if bad is None else 'wrong at points %s; e.g. point %s admitted %s observed %s' % (
-                            bad[:6], pts[bad[0] - 1], sorted(exp['allowed'][bad[0] - 1]), obs['idx'][bad[0] - 1])))
-                    rep.fail('window/%s/%s/%s' % (form, coords, finding or 'unexplained'),
-                             {'what': what + ' [layout %d, ply style %d]' % (lay, how['style']), 'fam': fam,
-                              'c': jsonable(c), 'coords': coords, 'form': form,
-                              'lay': lay, 'how': dict(how),
-                              'pts': jsonable(pts), 'expected': jsonable(exp), 'observed': obs}, finding)
+        how = loaded['how']          # spelling of the .ply file / form of the in-memory polygons of this list
+        plan = [(f, coords, None) for f in forms
+                for coords in (('xyz', 'radec') if f in ('memory', 'fits_raw') or k % 2 else ('xyz',))]
+        plan.append((forms[rot % len(forms)], 'xyz' if k % 2 else 'radec', isub))
+        for sform, coords, sub in plan:
+            lay = form(ncalls) if sub is None else intform(ncalls)
+            spts = pts if sub is None else [pts[i - 1] for i in sub]
+            sexp = exp if sub is None else restrict(exp, sub)
+            obs = run_window(ctx, c, spts, coords, sform, loaded, lay, how)
+            ncalls += 1
+            bad = judge_window(sexp, obs)
+            if bad is None or bad:
+                finding = classify_membership(sexp, obs, bad, sform, maxcaps)
+                what = ('is_in_window %s form=%s coords=%s%s: %s [layout %d, numeric type %s, ply style %d]' % (
+                    brief(c), sform, coords, '' if sub is None else ' (integral points only)',
+                    obs['exc'] if bad is None else 'wrong at points %s; e.g. point %s admitted %s observed %s' % (
+                        bad[:6], spts[bad[0] - 1], sorted(sexp['allowed'][bad[0] - 1]), obs['idx'][bad[0] - 1]),
+                    lay[0], getattr(INT_TYPES[lay[1]], '__name__', 'float64'), how['style']))
+                rep.fail('window/%s/%s%s/%s' % (sform, coords, '' if sub is None else '-int', finding or 'unexplained'),
+                         {'what': what, 'fam': fam, 'c': jsonable(c), 'coords': coords, 'form': sform,
+                          'lay': lay, 'how': dict(how),
+                          'pts': jsonable(spts), 'expected': jsonable(sexp), 'observed': obs}, finding)
         ctx.evaluated(ncalls, 'is_in_window')
         if len({min(a) for a in exp['allowed'] if len(a) == 1}) > 1:
             ctx.nontriv((fam, brief(c)))
     elif fam == 'usecaps':
-        lay = rot % NLAY
+        lay = form(0)
         obs = obs_usecaps(c['poly'], c['idx'], c['add'], c['allowDoubles'], c['allowNeg'], lay)
         ncalls = 1
         good = (not obs['err']) and frozenset(obs['ret']) == exp['use'] and obs['attr'] == obs['ret']
         if not good:
             finding = classify_usecaps(exp, obs)
-            what = 'set_use_caps %s: expected bits %s observed %s' % (
-                brief(c), sorted(exp['use']), obs['exc'] if obs['err'] else (obs['ret'], obs['attr']))
+            what = 'set_use_caps %s: expected bits %s observed %s [layout %d, numeric type %s]' % (
+                brief(c), sorted(exp['use']), obs['exc'] if obs['err'] else (obs['ret'], obs['attr']),
+                lay[0], getattr(INT_TYPES[lay[1]], '__name__', 'default'))
             rep.fail('usecaps/%s' % (finding or 'unexplained'),
-                     {'what': what + ' [index list layout %d]' % lay, 'fam': fam, 'c': jsonable(c), 'coords': '',
+                     {'what': what, 'fam': fam, 'c': jsonable(c), 'coords': '',
                       'form': '', 'lay': lay, 'pts': [], 'expected': jsonable(exp), 'observed': obs}, finding)
         ctx.evaluated(1, 'set_use_caps')
         if len(c['idx']) > 0:
@@ -612,10 +696,24 @@ def execute_record(ctx, rec, m):
 
 
 def record_calls(ctx, rng, nwin, npoly, ncap, nuse, nself):
-    pool = quadruple_pool(25)          # Mangle!MaxDen
+    full_pool = quadruple_pool(25)          # Mangle!MaxDen
+    axis = [v for v in full_pool if all(t.denominator == 1 for t in v)]
+    icm = [Fraction(t) for t in (0, 1, 2, -1, -2, 1, -1)]
     recs, meta = [], []
+    # "grid" records live on the integer grid (axis centres and points, cm in {0, +-1, +-2}) so that every array
+    # and scalar of the call can be handed over with an integer dtype
+    state = {'grid': False}
+    pool = full_pool
+
+    def set_grid(prob):
+        nonlocal pool
+        state['grid'] = rng.random() < prob
+        pool = axis if state['grid'] else full_pool
+        return state['grid']
 
     def rcm():
+        if state['grid']:
+            return rng.choice(icm)
         return rng.choice(CM_SPECIAL) if rng.random() < 0.3 else Fraction(rng.randint(-200, 200), 100)
 
     def rcaps(n, centres):
@@ -638,7 +736,7 @@ def record_calls(ctx, rng, nwin, npoly, ncap, nuse, nself):
         return pts
 
     for k in range(nwin):
-        form = rng.choice(FORMS_FULL)
+        form = 'memory' if (set_grid(0.25) and rng.random() < 0.5) else rng.choice(FORMS_FULL)
         centres = []
         polys = []
         for _ in range(rng.randint(1, 4)):
@@ -652,22 +750,29 @@ def record_calls(ctx, rng, nwin, npoly, ncap, nuse, nself):
         meta.append({'form': form, 'coords': rng.choice(['xyz', 'radec']), 'order': order,
                      'maxcaps': max(len(p['caps']) for p in polys)})
     for k in range(npoly):
+        set_grid(0.25)
         centres = []
         nc = rng.randint(0, 5)
         poly = {'caps': rcaps(nc, centres), 'use': sorted(b for b in range(nc + 2) if rng.random() < 0.7)}
         recs.append({'kind': 'poly', 'poly': poly, 'n': rng.choice([0, 0, 1, 2, 3, 4, 7]), 'pts': rpts(12, centres)})
         meta.append({'form': 'memory', 'coords': rng.choice(['xyz', 'radec'])})
     for k in range(ncap):
+        set_grid(0.3)
         centres = []
         cap = rcaps(1, centres)[0]
         recs.append({'kind': 'cap', 'cap': cap, 'pts': rpts(12, centres)})
         meta.append({'form': '', 'coords': rng.choice(['xyz', 'radec'])})
+    set_grid(0.0)
     ucentres = [pool[0], pool[len(pool) // 2], pool[-1]]
     ucm = [Fraction(1, 2), Fraction(-1, 2), Fraction(1), Fraction(-1), Fraction(1, 100), Fraction(-1, 100), Fraction(3, 2)]
     for k in range(nuse):
         nc = rng.randint(1, 5)
-        caps = [{'x': rvec(rng.choice(ucentres[:2] if rng.random() < 0.8 else ucentres)),
-                 'cm': rq(rng.choice(ucm[:4] if rng.random() < 0.7 else ucm))} for _ in range(nc)]
+        if rng.random() < 0.3:          # integer grid: axis centres, integral cm (unsigned differences, integer sums)
+            caps = [{'x': rvec(rng.choice(axis[:2] if rng.random() < 0.8 else axis)),
+                     'cm': rq(rng.choice(icm))} for _ in range(nc)]
+        else:
+            caps = [{'x': rvec(rng.choice(ucentres[:2] if rng.random() < 0.8 else ucentres)),
+                     'cm': rq(rng.choice(ucm[:4] if rng.random() < 0.7 else ucm))} for _ in range(nc)]
         poly = {'caps': caps, 'use': sorted(b for b in range(nc + 1) if rng.random() < 0.5)}
         idx = [rng.randrange(nc) for _ in range(rng.randint(0, nc))]
         if rng.random() < 0.15:
@@ -679,12 +784,18 @@ def record_calls(ctx, rng, nwin, npoly, ncap, nuse, nself):
         coords = rng.choice(['xyz', 'radec'])
         rel = 'centre' if rng.random() < 0.6 else 'antipode'
         cm = rcm()
+        whole = rng.random() < 0.4       # whole degrees / axis vectors: can be handed over as integers
+        if whole:
+            cm = rng.choice(icm + CM_SPECIAL)
         if coords == 'radec':
             ra = rng.uniform(-180.0, 360.0)
             dec = math.degrees(math.asin(rng.uniform(-1.0, 1.0)))
-            if rng.random() < 0.1:
-                ra, dec = float(rng.choice([0, 45, 90, 180, 270])), float(rng.choice([-90, -45, 0, 30, 60, 90]))
+            if whole:
+                ra, dec = float(rng.randint(0, 359) if rng.random() < 0.7 else rng.randint(-180, -1)), \
+                    float(rng.randint(0, 90) if rng.random() < 0.5 else rng.randint(-90, 90))
             point = [ra, dec]
+        elif whole:
+            point = [float(t) for t in rng.choice(axis)]
         else:
             v = np.array([rng.gauss(0, 1), rng.gauss(0, 1), rng.gauss(0, 1)])
             point = [float(t) for t in v / math.sqrt(float((v * v).sum()))]
@@ -692,7 +803,8 @@ def record_calls(ctx, rng, nwin, npoly, ncap, nuse, nself):
         meta.append({'form': '', 'coords': coords, 'point': point,
                      'via': 'is_in_cap' if rng.random() < 0.5 else 'is_in_polygon'})
     for rec, m in zip(recs, meta):
-        m.update({'lay': rng.randrange(NLAY), 'lay2': rng.randrange(NLAY), 'style': rng.randrange(NSTYLE)})
+        m.update({'lay': [rng.randrange(NLAY), rng.randrange(NITY)], 'lay2': [rng.randrange(NLAY), rng.randrange(NITY)],
+                  'style': rng.randrange(NSTYLE)})
         execute_record(ctx, rec, m)
     return recs, meta
 
@@ -721,7 +833,12 @@ def run(ctx):
                        'geometry restricted to rational unit vectors (denominators <= 25) and rational cm so that TLC decides exactly; '
                        'irrational points only as a cap\'s own centre / antipode ("self" records)',
                        'stored polygon lists have >= 1 cap per polygon (quantifier of the property); zero-cap polygons only in memory',
-                       'set_use_caps index lists within the documented precondition (entries < ncaps, length <= ncaps); tol left at its default']
+                       'set_use_caps index lists within the documented precondition (entries < ncaps, length <= ncaps); tol left at its default',
+                       'every array / scalar argument is rotated over memory layouts (read-only, strided, Fortran, byte-swapped, 0-d) and, '
+                       'where its values are integral (axis vectors, whole degrees, cm in {0, +-1, +-2}, masks, ncaps, index lists), over '
+                       'int8..int64 / uint8..uint64 / Python int; expected values are TLC\'s for the same values',
+                       'use_caps wider than the integer type the caller stored it in (polygon.use_caps = np.int8(..) with >= 8 caps) is the '
+                       'caller\'s overflow, not covered']
     cfg = 'MC_Mangle_quick.cfg' if ctx.quick else 'MC_Mangle_thorough.cfg'
     r = ctx.tlc('MC_Mangle.tla', cfg, dump=True, timeout=1500)
     states = []
@@ -766,6 +883,35 @@ def run(ctx):
                   'fam': 'record', 'record': recs[k], 'meta': meta[k]},
                  finding)
     ctx.sample({'recorded_call': recs[0], 'meta': meta[0]})
+    # ---- binding self-test: accepted records with one observed field falsified must all be rejected by Trace_Mangle
+    import copy
+    fals, per_kind = [], {}
+    for k, rec in enumerate(recs):
+        kind = rec['kind']
+        if k in bad or per_kind.get(kind, 0) >= 60:
+            continue
+        r2 = copy.deepcopy(rec)
+        if kind in ('cap', 'poly'):
+            # every answer inverted; at least one of the 12 points is decided unless all lie exactly on boundaries,
+            # which the integer-grid records (cm in {0, +-1, +-2}, axis points) can do: those are left out
+            caps = [rec['cap']] if kind == 'cap' else rec['poly']['caps']
+            if not rec['pts'] or any(cp['cm'][1] == 1 for cp in caps):
+                continue
+            r2['obs'] = [not v for v in rec['obs']]
+        elif kind == 'window':              # "inside" flag contradicting the returned index, at one point
+            j = k % len(rec['obsin'])
+            r2['obsin'][j] = not r2['obsin'][j]
+        elif kind == 'usecaps':             # one bit of the returned use_caps toggled (returned value and attribute)
+            b = k % (len(rec['poly']['caps']) + 1)
+            r2['ret'] = sorted(set(rec['ret']) ^ {b})
+            r2['attr'] = list(r2['ret']) if k % 3 else rec['attr']
+        else:                               # self: the centre / antipode answer inverted (cm = 0, +-2 are boundaries)
+            if rec['cm'] in ([0, 1], [2, 1], [-2, 1]):
+                continue
+            r2['obs'] = not rec['obs']
+        per_kind[kind] = per_kind.get(kind, 0) + 1
+        fals.append(r2)
+    core.binding_selftest(ctx, 'Trace_Mangle', fals, 'recorded_calls')
     rep.finish()
     ctx.exhaustive = not ctx.quick
 
